@@ -23,8 +23,10 @@ def alphabet(base_non):
     tr = base_non["nonorthogonal_target_all_poloidal_spacing_range"]
     A = {}
     B = dict(nonorthogonal_xpoint_poloidal_spacing_length=0.4 * xl)
+    tl = float(base_non["nonorthogonal_target_all_poloidal_spacing_length"])
     C = dict(nonorthogonal_target_all_poloidal_spacing_range=2.0 * float(tr),
-             nonorthogonal_xpoint_poloidal_spacing_range=0.5 * float(xr))
+             nonorthogonal_xpoint_poloidal_spacing_range=0.5 * float(xr),
+             nonorthogonal_target_all_poloidal_spacing_length=0.6 * tl)
     D = dict(nonorthogonal_spacing_method="poloidal_orthogonal_combined")
     # E: B plus keys that are not non-orthogonal settings: must be ignored or refused
     E = dict(B, xpoint_poloidal_spacing_length=0.123, ny_inner_divertor=9, orthogonal=True, y_boundary_guards=3)
@@ -185,7 +187,7 @@ def run(ctx):
     ctx.set("transitions", transitions)
     ctx.set("traces_validated_against_impl", validated)
     ctx.set("depth", depth)
-    ctx.set("alphabet", ["A default", "B xpoint length x0.4", "C target range x2, xpoint range x0.5",
+    ctx.set("alphabet", ["A default", "B xpoint length x0.4", "C target range x2, xpoint range x0.5, target length x0.6",
                          "D poloidal_orthogonal_combined", "E = B + non-nonorthogonal keys"])
     for k, v in stats.items():
         ctx.set(k, v)
